@@ -518,3 +518,22 @@ func init() {
 	})
 	registerIntrinsic("(*strings.Builder).Grow", nop)
 }
+
+func init() {
+	registerIntrinsic("maps.clone", func(i *interpreter, fr *frame, fn *ssa.Function, a []value) value {
+		// func clone(m any) any
+		it := a[0].(iface)
+		m, _ := it.v.(*omap)
+		if m == nil {
+			return it
+		}
+		c := makeMap(m.keyType, 0).(*omap)
+		if sub := i.ctx.sub(); sub != nil {
+			sub.maps[c] = true
+		}
+		for k := range m.keys {
+			c.insert(m.keys[k], m.vals[k])
+		}
+		return iface{t: it.t, v: c}
+	})
+}
